@@ -2,6 +2,7 @@
   Line protocol: one operation per line in, one canonical line out.
 -/
 import Mhub2.Votes
+import Mhub2.Oracle
 import Mhub2.Generated.Facts
 namespace Mhub2
 
@@ -62,6 +63,13 @@ def parseSigners (s : String) : Option (List Signer) :=
     | [a, p] => p.toNat?.map fun pw => Signer.mk pw a
     | _ => none
 
+def parseItems (s : String) : Option (List (String × Int)) :=
+  if s == "-" then some []
+  else (s.splitOn ",").mapM fun item =>
+    match item.splitOn "=" with
+    | [a, v] => v.toInt?.map fun x => (a, x)
+    | _ => none
+
 def parseValidators (ws : List String) : Option (List Validator) :=
   ws.mapM fun item =>
     match item.splitOn ":" with
@@ -79,6 +87,92 @@ def parseEvent : List String → Option Event
     some (.signerSet (← n.toNat?) (← sn.toNat?) (← height.toNat?) (← parseSigners members) tx)
   | _ => none
 
+/-- Operations of a history (what a line of the protocol parses to). -/
+inductive Op where
+  | reset
+  | init
+  | chains (cs : List String)
+  | token (t : TokenInfo)
+  | param (name : String) (v : Nat)
+  | gravityId (v : String)
+  | price (name : String) (v : Int)
+  | holder (addr : String) (v : Int)
+  | staking (vs : List Validator)
+  | fund (acc denom : String) (amt : Int)
+  | block (height time : Nat)
+  | beginBlock
+  | endBlock
+  | send (sender chain recipient denom : String) (amount fee : Int) (txTag : String)
+  | cancel (sender chain : String) (id : Nat)
+  | reqBatch (chain denom : String)
+  | vote (chain signer : String) (ev : Event)
+  | hashOf (ev : Event)
+  | confirm (chain signer : String) (k : ConfKind) (extSigner sig : String)
+  | delegate (chain val orch eth signedBy signedVal : String) (signedNonce accSeq : Nat)
+  | qConfs (chain : String) (k : ConfKind)
+  | qUnsignedSets (chain signer : String)
+  | qUnsignedBatches (chain signer : String)
+  | qLastNonce (chain signer : String)
+  | oprice (val : String) (epoch : Nat) (items : List (String × Int))
+  | oholders (val : String) (epoch : Nat) (items : List (String × Int))
+  | oend
+  | dump (what : List String)
+  | nop
+  | bad
+
+def parseOp (line : String) : Op :=
+  match (line.trimAscii.toString.splitOn " ").filter (· != "") with
+  | ["reset"] => .reset
+  | ["init"] => .init
+  | ["chains", cs] => .chains (cs.splitOn ",")
+  | ["token", id, denom, chain, ext, dec, comm] =>
+    match id.toNat?, dec.toNat?, comm.toInt? with
+    | some i, some d, some c => .token (TokenInfo.mk i denom chain ext d c)
+    | _, _, _ => .bad
+  | ["param", name, v] =>
+    match v.toNat? with
+    | none => if name == "gravity_id" then .gravityId v else .bad
+    | some n => .param name n
+  | ["price", name, v] => match v.toInt? with | some x => .price name x | none => .bad
+  | ["holder", addr, v] => match v.toInt? with | some x => .holder addr x | none => .bad
+  | "staking" :: ws => match parseValidators ws with | some vs => .staking vs | none => .bad
+  | ["fund", acc, denom, amt] => match amt.toInt? with | some a => .fund acc denom a | none => .bad
+  | ["block", height, time] =>
+    match height.toNat?, time.toNat? with
+    | some ht, some t => .block ht t
+    | _, _ => .bad
+  | ["begin"] => .beginBlock
+  | ["end"] => .endBlock
+  | ["send", sender, chain, recipient, denom, amount, fee, tx] =>
+    match amount.toInt?, fee.toInt? with
+    | some a, some f => .send sender chain recipient denom a f tx
+    | _, _ => .bad
+  | ["cancel", sender, chain, id] => match id.toNat? with | some i => .cancel sender chain i | none => .bad
+  | ["reqbatch", chain, denom] => .reqBatch chain denom
+  | "vote" :: chain :: signer :: ev => match parseEvent ev with | some e => .vote chain signer e | none => .bad
+  | "hash" :: ev => match parseEvent ev with | some e => .hashOf e | none => .bad
+  | ["confirm", chain, signer, "set", nonce, ext, sig] =>
+    match nonce.toNat? with | some n => .confirm chain signer (.set n) ext sig | none => .bad
+  | ["confirm", chain, signer, "batch", tok, nonce, ext, sig] =>
+    match nonce.toNat? with | some n => .confirm chain signer (.batch tok n) ext sig | none => .bad
+  | ["delegate", chain, val, orch, eth, signedBy, signedVal, signedNonce, accSeq] =>
+    match signedNonce.toNat?, accSeq.toNat? with
+    | some n, some s => .delegate chain val orch eth signedBy signedVal n s
+    | _, _ => .bad
+  | ["q_confs", chain, "set", nonce] => match nonce.toNat? with | some n => .qConfs chain (.set n) | none => .bad
+  | ["q_confs", chain, "batch", tok, nonce] => match nonce.toNat? with | some n => .qConfs chain (.batch tok n) | none => .bad
+  | ["q_unsigned_sets", chain, signer] => .qUnsignedSets chain signer
+  | ["q_unsigned_batches", chain, signer] => .qUnsignedBatches chain signer
+  | ["q_lastnonce", chain, signer] => .qLastNonce chain signer
+  | ["oprice", val, epoch, items] =>
+    match epoch.toNat?, parseItems items with | some e, some l => .oprice val e l | _, _ => .bad
+  | ["oholders", val, epoch, items] =>
+    match epoch.toNat?, parseItems items with | some e, some l => .oholders val e l | _, _ => .bad
+  | ["oend"] => .oend
+  | "dump" :: what => .dump what
+  | [] => .nop
+  | _ => .bad
+
 def outM (r : M Hub) (old : Hub) (okMsg : String := "ok") : Hub × String :=
   match r with
   | .ok h => (h, okMsg)
@@ -87,113 +181,102 @@ def outM (r : M Hub) (old : Hub) (okMsg : String := "ok") : Hub × String :=
 
 def mintsFee : Bool := Generated.ttcMintsAmountPlusFee
 
-def step (h : Hub) (line : String) : Hub × String :=
-  match (line.trimAscii.toString.splitOn " ").filter (· != "") with
-  | ["reset"] => ({ params := { voteNum := Generated.voteThresholdNum, voteAdd := Generated.voteThresholdAdd, voteDen := Generated.voteThresholdDen } }, "ok")
-  | ["init"] => (h, "ok")
-  | ["chains", cs] => ({ h with chains := cs.splitOn "," }, "ok")
-  | ["token", id, denom, chain, ext, dec, comm] =>
-    match id.toNat?, dec.toNat?, comm.toInt? with
-    | some i, some d, some c => ({ h with tokens := h.tokens ++ [TokenInfo.mk i denom chain ext d c] }, "ok")
-    | _, _, _ => (h, "bad-op")
-  | ["param", name, v] =>
-    match v.toNat? with
-    | none => if name == "gravity_id" then ({ h with params := { h.params with gravityId := v } }, "ok") else (h, "bad-op")
-    | some n =>
-      let p := h.params
-      let p' := match name with
-        | "outgoing_timeout_ms" => some { p with outgoingTimeoutMs := n }
-        | "target_timeout" => some { p with targetTimeout := n }
-        | "avg_block" => some { p with avgBlock := n }
-        | "avg_eth" => some { p with avgEth := n }
-        | "avg_bsc" => some { p with avgBsc := n }
-        | "window" => some { p with window := n }
-        | _ => none
-      match p' with
-      | some p' => ({ h with params := p' }, "ok")
-      | none => (h, "bad-op")
-  | ["price", name, v] =>
-    match v.toInt? with
-    | some x => ({ h with prices := alSet h.prices name x }, "ok")
+def initialHub : Hub :=
+  { params := { voteNum := Generated.voteThresholdNum, voteAdd := Generated.voteThresholdAdd,
+                voteDen := Generated.voteThresholdDen } }
+
+def txHashOfTag (tag : String) : String := hexOfBytes (sha256 (strBytes ("tx:" ++ tag)))
+
+/-- One operation on the model: new state and the canonical output line. -/
+def apply (h : Hub) : Op → Hub × String
+  | .reset => (initialHub, "ok")
+  | .init => (h, "ok")
+  | .chains cs => ({ h with chains := cs }, "ok")
+  | .token t => ({ h with tokens := h.tokens ++ [t] }, "ok")
+  | .param name n =>
+    let p := h.params
+    let p' := match name with
+      | "outgoing_timeout_ms" => some { p with outgoingTimeoutMs := n }
+      | "target_timeout" => some { p with targetTimeout := n }
+      | "avg_block" => some { p with avgBlock := n }
+      | "avg_eth" => some { p with avgEth := n }
+      | "avg_bsc" => some { p with avgBsc := n }
+      | "window" => some { p with window := n }
+      | _ => none
+    match p' with
+    | some p' => ({ h with params := p' }, "ok")
     | none => (h, "bad-op")
-  | ["holder", addr, v] =>
-    match v.toInt? with
-    | some x => ({ h with holders := alSet h.holders addr.toLower x }, "ok")
-    | none => (h, "bad-op")
-  | "staking" :: ws =>
-    match parseValidators ws with
-    | some vs => ({ h with staking := vs }, "ok")
-    | none => (h, "bad-op")
-  | ["fund", acc, denom, amt] =>
-    match amt.toInt? with
-    | some a => outM (h.mintTo acc denom a) h
-    | none => (h, "bad-op")
-  | ["block", height, time] =>
-    match height.toNat?, time.toNat? with
-    | some ht, some t => ({ h with height := ht, time := t }, "ok")
-    | _, _ => (h, "bad-op")
-  | ["begin"] => outM h.beginBlock h
-  | ["end"] => outM (h.endBlock mintsFee) h
-  | ["send", sender, chain, recipient, denom, amount, fee, tx] =>
-    match amount.toInt?, fee.toInt? with
-    | some a, some f =>
-      match h.sendToExternal sender chain recipient denom a f (hexOfBytes (sha256 (strBytes ("tx:" ++ tx)))) with
-      | .ok (h', id) => (h', s!"ok id={id}")
-      | .error (.fail _) => (h, "err")
-      | .error (.panic _) => (h, "panic")
-    | _, _ => (h, "bad-op")
-  | ["cancel", sender, chain, id] =>
-    match id.toNat? with
-    | some i => outM (h.cancelMsg sender chain i) h
-    | none => (h, "bad-op")
-  | ["reqbatch", chain, denom] =>
+  | .gravityId v => ({ h with params := { h.params with gravityId := v } }, "ok")
+  | .price name x => ({ h with prices := alSet h.prices name x }, "ok")
+  | .holder addr x => ({ h with holders := alSet h.holders addr.toLower x }, "ok")
+  | .staking vs => ({ h with staking := vs }, "ok")
+  | .fund acc denom a => outM (h.mintTo acc denom a) h
+  | .block ht t => ({ h with height := ht, time := t }, "ok")
+  | .beginBlock => outM h.beginBlock h
+  | .endBlock => outM (h.endBlock mintsFee) h
+  | .send sender chain recipient denom a f tx =>
+    match h.sendToExternal sender chain recipient denom a f (txHashOfTag tx) with
+    | .ok (h', id) => (h', s!"ok id={id}")
+    | .error (.fail _) => (h, "err")
+    | .error (.panic _) => (h, "panic")
+  | .cancel sender chain i => outM (h.cancelMsg sender chain i) h
+  | .reqBatch chain denom =>
     match h.requestBatch chain denom with
     | .ok (h', some b) => (h', s!"ok nonce={b.nonce}")
     | .ok (h', none) => (h', "ok nonce=none")
     | .error (.fail _) => (h, "err")
     | .error (.panic _) => (h, "panic")
-  | "vote" :: chain :: signer :: ev =>
-    match parseEvent ev with
-    | some e => if e.validBasic then outM (h.submitEvent chain signer e) h else (h, "err")
-    | none => (h, "bad-op")
-  | "hash" :: ev =>
-    match parseEvent ev with
-    | some e => (h, hexOfBytes e.hash)
-    | none => (h, "bad-op")
-  | ["confirm", chain, signer, "set", nonce, ext, sig] =>
-    match nonce.toNat? with
-    | some n => outM (h.confirm chain signer (.set n) ext sig) h
-    | none => (h, "bad-op")
-  | ["confirm", chain, signer, "batch", tok, nonce, ext, sig] =>
-    match nonce.toNat? with
-    | some n => outM (h.confirm chain signer (.batch tok n) ext sig) h
-    | none => (h, "bad-op")
-  | ["delegate", chain, val, orch, eth, signedBy, signedVal, signedNonce, accSeq] =>
-    match signedNonce.toNat?, accSeq.toNat? with
-    | some n, some s => outM (h.setDelegateKeys chain val orch eth signedBy signedVal n s) h
-    | _, _ => (h, "bad-op")
-  | ["q_confs", chain, "set", nonce] =>
-    match nonce.toNat? with
-    | some n => (h, "confs " ++ joinWith ";" ((h.confirmations chain (.set n)).map fun p => s!"{p.1}={p.2}"))
-    | none => (h, "bad-op")
-  | ["q_confs", chain, "batch", tok, nonce] =>
-    match nonce.toNat? with
-    | some n => (h, "confs " ++ joinWith ";" ((h.confirmations chain (.batch tok n)).map fun p => s!"{p.1}={p.2}"))
-    | none => (h, "bad-op")
-  | ["q_unsigned_sets", chain, signer] =>
+  | .vote chain signer e => if e.validBasic then outM (h.submitEvent chain signer e) h else (h, "err")
+  | .hashOf e => (h, hexOfBytes e.hash)
+  | .confirm chain signer k ext sig => outM (h.confirm chain signer k ext sig) h
+  | .delegate chain val orch eth signedBy signedVal n s =>
+    outM (h.setDelegateKeys chain val orch eth signedBy signedVal n s) h
+  | .qConfs chain k => (h, "confs " ++ joinWith ";" ((h.confirmations chain k).map fun p => s!"{p.1}={p.2}"))
+  | .qUnsignedSets chain signer =>
     match h.unsignedSets chain signer with
     | .ok l => (h, "unsigned " ++ joinWith "," (l.map toString))
     | .error _ => (h, "err")
-  | ["q_unsigned_batches", chain, signer] =>
+  | .qUnsignedBatches chain signer =>
     match h.unsignedBatches chain signer with
     | .ok l => (h, "unsigned " ++ joinWith "," (l.map fun p => s!"{p.1}/{p.2}"))
     | .error _ => (h, "err")
-  | ["q_lastnonce", chain, signer] =>
+  | .qLastNonce chain signer =>
     match h.signerValidator chain signer with
     | .ok v => (h, s!"lastnonce {(h.chain chain).lastNonceOf v}")
     | .error _ => (h, "err")
-  | "dump" :: what => (h, h.dump what)
-  | [] => (h, "")
-  | _ => (h, "bad-op")
+  | .dump what => (h, h.dump what)
+  | .oprice .. => (h, "oracle-op")
+  | .oholders .. => (h, "oracle-op")
+  | .oend => (h, "oracle-op")
+  | .nop => (h, "")
+  | .bad => (h, "bad-op")
+
+/-- Hub plus the oracle module's own state. -/
+structure World where
+  hub : Hub := {}
+  oracle : OracleSt := {}
+
+def showItems (l : List (String × Int)) : String := joinWith "," (l.map fun p => s!"{p.1}={p.2}")
+
+def outO (r : M OracleSt) (w : World) : World × String :=
+  match r with
+  | .ok o => ({ w with oracle := o }, "ok")
+  | .error (.fail _) => (w, "err")
+  | .error (.panic _) => (w, "panic")
+
+def applyW (w : World) : Op → World × String
+  | .reset => ({ hub := initialHub, oracle := {} }, "ok")
+  | .oprice val epoch items => outO (oraclePriceClaim w.hub w.oracle val epoch items) w
+  | .oholders val epoch items => outO (oracleHoldersClaim w.hub w.oracle val epoch items) w
+  | .oend => outO (oracleEndBlock w.hub w.oracle Generated.oracleThresholdNum Generated.oracleThresholdAdd
+      Generated.oracleThresholdDen) w
+  | .dump ["oracle"] =>
+    (w, s!"oracle epoch={w.oracle.epoch} prices={showItems w.oracle.prices} holders={showItems w.oracle.holders} pvotes={joinWith "," w.oracle.priceVotes} hvotes={joinWith "," w.oracle.holderVotes}")
+  | op => let (h, o) := apply w.hub op; ({ w with hub := h }, o)
+
+def step (w : World) (line : String) : World × String := applyW w (parseOp line)
+
+/-- The state reached by a history of operations from genesis. -/
+def runOps (ops : List Op) : Hub := ops.foldl (fun h op => (apply h op).1) initialHub
 
 end Mhub2
